@@ -293,9 +293,9 @@ func (g *mdGen) document() string {
 	lastIndented := false   // two indented chunks in a row are one code block in Markdown
 	afterContainer := false // the previous block was a list / task list / quote: an indented chunk would continue it
 	for b := 0; b < blocks; b++ {
-		k := r.Intn(12)
+		k := r.Intn(13)
 		wasContainer := afterContainer
-		afterContainer = k == 5 || (k == 6 && g.gfm) || k == 7
+		afterContainer = k == 5 || (k == 6 && g.gfm) || k == 7 || k == 12
 		if k != 8 {
 			lastIndented = false
 		}
@@ -470,6 +470,42 @@ func (g *mdGen) document() string {
 			sb.WriteString("\n")
 			g.tables = append(g.tables, t)
 			g.use("table")
+		case k == 12:
+			// blocks nested in blocks: code and lists inside a quote, code and a quote inside a list item
+			codeLines := func(prefix string) string {
+				var lines, src []string
+				for i, n := 0, r.Range(1, 3); i < n; i++ {
+					a, b := g.word(), g.word()
+					g.toks = append(g.toks, mdTok{tok: a, block: "codeblock"}, mdTok{tok: b, block: "codeblock"})
+					ln := strings.Repeat(" ", r.Intn(3)*2) + a + " := " + b
+					lines = append(lines, ln)
+					src = append(src, prefix+ln)
+				}
+				g.code = append(g.code, lines)
+				return strings.Join(src, "\n") + "\n"
+			}
+			switch r.Intn(4) {
+			case 0:
+				sb.WriteString("> " + g.inline("quote", 3) + "\n>\n> ```\n" + codeLines("> ") + "> ```\n\n")
+				g.use("code-in-quote")
+			case 1:
+				sb.WriteString("> " + g.inline("quote", 3) + "\n>\n")
+				for i, n := 0, r.Range(1, 3); i < n; i++ {
+					sb.WriteString("> - " + g.inline("list", 3) + "\n")
+				}
+				sb.WriteString("\n")
+				g.use("list-in-quote")
+			case 2:
+				marker := []string{"- ", "1. "}[r.Intn(2)]
+				pad := strings.Repeat(" ", len(marker))
+				sb.WriteString(marker + g.inline("list", 3) + "\n\n" + pad + "```\n" + codeLines(pad) + pad + "```\n\n")
+				g.use("code-in-list-item")
+			default:
+				marker := []string{"- ", "1. "}[r.Intn(2)]
+				pad := strings.Repeat(" ", len(marker))
+				sb.WriteString(marker + g.inline("list", 3) + "\n\n" + pad + "> " + g.inline("quote", 3) + "\n\n")
+				g.use("quote-in-list-item")
+			}
 		default:
 			sb.WriteString(g.inline("para", 4) + "\n\n")
 		}
@@ -985,7 +1021,7 @@ func init() {
 		ID:    "C19",
 		Level: "exploration",
 		Rule: "two kinds of cases under every combination of {GFM, tables, task lists, math, footnotes, TOC} and TOC level 0-7. Totality (2 of 3 cases): hostile inputs (random runes, random bytes, 100-10000-deep >/*/[ nesting, pathological emphasis runs, wide/long tables, unterminated fences, deeply nested \\frac/\\sqrt, footnote loops, huge task lists, setext/ATX mixes, raw HTML/CDATA, hostile link/image targets, byte-mutated generated Markdown), written to disk before ConvertBytes; no panic, no hang (watchdog + isolated retry), result saves to a well-formed package; LaTeXToOMMLString -> AddMathFormula on the same inputs. " +
-			"Fidelity (1 of 3; one case in four through ConvertFile, i.e. Markdown read from a file and the document re-read from the package ConvertFile wrote; one in twelve with a paragraph on one physical line of 9-130 KiB followed by more text): Markdown printed from a block/inline tree (headings 1-6, paragraphs with emphasis/strong/code/strike/links/autolinks/bare www addresses/soft breaks and span trees (spans of different kinds nested up to three deep with text before, between and after the inner spans), bullet/ordered/nested lists, task lists, block quotes, fenced code (``` or ~~~, fence indented by 0-3 columns, closing fence indented independently) and indented code whose lines start with blanks and tabs in any mix (expected line = the source line minus the block's own indentation columns, a partly used tab leaving blanks), thematic breaks, tables with alignments, also tables that consist of their header row only) whose words are unique tokens: the document's token sequence equals the tree's, the paragraph carrying an inline sequence shows exactly the visible text Markdown defines for it (white space aside; nothing dropped, nothing invented), heading tokens sit in Heading<n> paragraphs, every token is carried by a run with exactly the italic/bold/strike formats of the spans enclosing it (code: code font), code blocks keep lines and indentation, tables keep dimensions, cell text and column alignment. Non-trivial: >=3 tokens (fidelity) / every totality input; distinct = options + input.",
+			"Fidelity (1 of 3; one case in four through ConvertFile, i.e. Markdown read from a file and the document re-read from the package ConvertFile wrote; one in twelve with a paragraph on one physical line of 9-130 KiB followed by more text): Markdown printed from a block/inline tree (headings 1-6, paragraphs with emphasis/strong/code/strike/links/autolinks/bare www addresses/soft breaks and span trees (spans of different kinds nested up to three deep with text before, between and after the inner spans), bullet/ordered/nested lists, task lists, block quotes, fenced code (``` or ~~~, fence indented by 0-3 columns, closing fence indented independently) and indented code whose lines start with blanks and tabs in any mix (expected line = the source line minus the block's own indentation columns, a partly used tab leaving blanks), thematic breaks, blocks nested in blocks (a fenced code block or a list inside a quote, a fenced code block or a quote inside a bullet/ordered list item), tables with alignments, also tables that consist of their header row only) whose words are unique tokens: the document's token sequence equals the tree's, the paragraph carrying an inline sequence shows exactly the visible text Markdown defines for it (white space aside; nothing dropped, nothing invented), heading tokens sit in Heading<n> paragraphs, every token is carried by a run with exactly the italic/bold/strike formats of the spans enclosing it (code: code font), code blocks keep lines and indentation, tables keep dimensions, cell text and column alignment. Non-trivial: >=3 tokens (fidelity) / every totality input; distinct = options + input.",
 		Cases: func(t string) int { return tierN(t, 4500, 400000) },
 		Run: func(c *core.Ctx) *core.Result {
 			r := caseRng(c)
